@@ -287,7 +287,7 @@ def validate_traces(acc, name, trace_path, verdict_fields, record_sum=None, time
 
 
 def trace_stage(name, family, maxnodes, every, modes="struct:noopt,struct:opt", verdict_fields=VM_VERDICT_FIELDS,
-                max_runs=4000, maxclosure=2):
+                max_runs=4000, maxclosure=2, wfonly=False):
     gcfg = gen_cfg(family, maxnodes, maxclosure=maxclosure)
 
     def f(acc, binary, s):
@@ -297,7 +297,7 @@ def trace_stage(name, family, maxnodes, every, modes="struct:noopt,struct:opt", 
             trace = os.path.join(d, "trace.ndjson")
             summ = os.path.join(d, "rec.json")
             vf.run_harness(binary, ["record", "-in", cases, "-out", trace, "-sum", summ, "-every", str(every),
-                                    "-modes", modes, "-max", str(max_runs)])
+                                    "-modes", modes, "-max", str(max_runs), "-wfonly", "1" if wfonly else "0"])
             rs = json.load(open(summ))
             if rs["runs"] == 0:
                 raise vf.Infra("recorder produced no runs for " + name)
@@ -349,6 +349,9 @@ def stages_C05(tier):
     # every successful real run of the evaluation corpora ends clean (nothing left on the stack, no scope open)
     for fam, n in C01_FAMILIES[tier]:
         out.append(Stage("clean-%s-n%d" % (fam, n), "MC_Expr", gen_cfg(fam, n), "C05CE", modes="struct:noopt,struct:opt"))
+    # VM!WellFormed evaluated by TLC on the real bytes of EVERY program of the corpora (no run, not sampled)
+    for fam, n in [("logic", 4), ("builtin", 5), ("mixed", 4), ("calls", 5)] + ([("coll", 4), ("access", 4), ("string", 4)] if tier == "thorough" else []):
+        out.append(trace_stage("wellformed-%s" % fam, fam, n, 1, max_runs=1000000, wfonly=True))
     ev = 7 if tier == "quick" else 2
     for fam, n in [("builtin", 5), ("mixed", 4), ("logic", 4), ("coll", 4), ("calls", 5), ("access", 4)]:
         out.append(trace_stage("trace-%s" % fam, fam, n, ev, max_runs=3000 if tier == "quick" else 20000))
@@ -1021,6 +1024,7 @@ def stages_C08(tier):
     out.append(race_stage("race-mixed", "mixed", 4, "ptr:opt,map:noopt", st))
     out.append(race_stage("race-string", "string", 4, "ptr:opt", st))
     out.append(race_stage("race-coll", "coll", 4, "ptr:opt", st))
+    out.append(race_stage("race-builtin", "builtin", 5, "ptr:opt", st))
     return out
 
 
